@@ -72,6 +72,7 @@ where
         SF: Iterable,
         SF::Item: Borrow<E::ScalarField>,
     {
+        assert!(self.powers_of_g.len() >= polynomial.len());
         let mut quotient: ChunkedPippenger<E::G1> = ChunkedPippenger::new(max_msm_buffer);
 
         let bases_init = self.powers_of_g.iter();
